@@ -545,3 +545,10 @@ Theorem C13_rx_group_degapped : forall g r s rfn start x, gapfree g r = true -> 
   In x (matchall_m (m_rx (eff_rx (Some g) r)) s rfn start (Some g)) -> lang r (degap g (bm_group x)).
 Proof. exact rx_group_degapped. Qed.
 Print Assumptions C13_rx_group_degapped.
+
+(* token words (concatenations of letters, ".", classes, negated classes; e.g. A[TU]G, A[^A]G, .TG): a string is matched iff it has
+   exactly one character per token, each matched by its token; a group has as many characters as the pattern has tokens *)
+Theorem C13_token_word_language : forall a l t, forallb tok_ok (a :: l) = true ->
+  (lang (cat_of a l) t <-> Forall2 tok_match (a :: l) t) /\ (lang (cat_of a l) t -> length t = S (length l)).
+Proof. exact (fun a l t H => conj (token_word_language l a t H) (token_word_length l a t H)). Qed.
+Print Assumptions C13_token_word_language.
